@@ -29,6 +29,7 @@ CONSTANTS
   Family,      \* "types"  : one-parameter environments, every type x width x sign x shape x value pattern
                \* "select" : sub-lists of a fixed pool of parameters, every query / tag selection
                \* "history": every history of up to MaxCalls select()/parse() calls on ONE exporter object
+               \* "chain"  : every sequence of MaxChain exports of ONE parsed environment through (different) back-ends
   Shapes,      \* set of shapes (sequences of extents) explored in family "types"
   SecShapes,   \* shapes on which the secondary attributes (path, keyword form, unit, tags, constant) are varied
   ArrStarts,   \* start positions of the value pattern used for arrays (scalars use every position)
@@ -38,6 +39,7 @@ CONSTANTS
   TagSelSet,   \* family "select": tag selectors explored (subset of TagSels)
   MaxCalls,    \* family "history": number of calls of a history
   HistSelects, \* family "history": the select() calls of the alphabet, as <<query, tags>> pairs
+  MaxChain,    \* family "chain": number of exports of a chain
   Backends     \* subset of AllBackends to explore
 
 AllBackends == {"dip", "json", "yaml", "toml", "bash", "c", "cpp", "fortran", "rust"}
@@ -138,21 +140,22 @@ HasDefaultWidth(tv) == (tv.ty = "int" /\ tv.width = 32) \/ (tv.ty = "float" /\ t
 (* Shapes and element order.                                               *)
 
 Rank(shape)  == Len(shape)
-Count(shape) == IF Rank(shape) = 0 THEN 1 ELSE IF Rank(shape) = 1 THEN shape[1] ELSE shape[1] * shape[2]
+RECURSIVE Prod(_)
+Prod(q) == IF Len(q) = 0 THEN 1 ELSE q[1] * Prod(Tail(q))
+Count(shape) == Prod(shape)
+\* distance, in the written (ROW MAJOR) value, between neighbours along dimension d: the extents after d
+RowStride(shape, d) == Prod(SubSeq(shape, d + 1, Len(shape)))
+\* the same for a column-major reader (Fortran's reshape without order=): the extents before d
+ColStride(shape, d) == Prod(SubSeq(shape, 1, d - 1))
+RECURSIVE SumTo(_, _)
+SumTo(f, n) == IF n = 0 THEN 0 ELSE f[n] + SumTo(f, n - 1)
 
-\* index (0 based, as a sequence) of the k-th element of the value as written in the DIP text: ROW MAJOR
-Unflat(shape, k) ==
-  IF Rank(shape) = 0 THEN <<>>
-  ELSE IF Rank(shape) = 1 THEN <<k - 1>>
-  ELSE <<(k - 1) \div shape[2], (k - 1) % shape[2]>>
-RowPos(shape, idx) == IF Rank(shape) = 0 THEN 1 ELSE IF Rank(shape) = 1 THEN idx[1] + 1
-                      ELSE idx[1] * shape[2] + idx[2] + 1
-\* the position a column-major reader (Fortran's reshape) would take the element of idx from
-ColPos(shape, idx) == IF Rank(shape) < 2 THEN RowPos(shape, idx) ELSE idx[2] * shape[1] + idx[1] + 1
-IndexSet(shape) ==
-  IF Rank(shape) = 0 THEN {<<>>}
-  ELSE IF Rank(shape) = 1 THEN {<<i>> : i \in 0..(shape[1] - 1)}
-  ELSE {<<i, j>> : i \in 0..(shape[1] - 1), j \in 0..(shape[2] - 1)}
+\* index (0 based, as a sequence) of the k-th element of the value as written in the DIP text
+Unflat(shape, k) == [d \in 1..Rank(shape) |-> ((k - 1) \div RowStride(shape, d)) % shape[d]]
+RowPos(shape, idx) == 1 + SumTo([d \in 1..Rank(shape) |-> idx[d] * RowStride(shape, d)], Rank(shape))
+ColPos(shape, idx) == 1 + SumTo([d \in 1..Rank(shape) |-> idx[d] * ColStride(shape, d)], Rank(shape))
+MaxExtent == 3
+IndexSet(shape) == { idx \in [1..Rank(shape) -> 0..(MaxExtent - 1)] : \A d \in 1..Rank(shape) : idx[d] < shape[d] }
 
 \* value pattern: element k is the (start + step*(k-1))-th fitting pool value, cyclically
 Elems(tv, shape, start, step) ==
@@ -317,12 +320,12 @@ Obs(p, rel, be, opt) ==
 (* known-findings matcher).                                                *)
 
 ElemSet(p) == {p.elems[k] : k \in 1..Len(p.elems)}
-OrderSensitive(p) == Rank(p.shape) = 2 /\
+OrderSensitive(p) == Rank(p.shape) >= 2 /\
   \E idx \in IndexSet(p.shape) : p.elems[RowPos(p.shape, idx)] # p.elems[ColPos(p.shape, idx)]
 
 Features(p, rel, be, opt, q, ts) ==
   {be, p.ty}
-  \cup (IF Rank(p.shape) = 0 THEN {"scalar"} ELSE {"array", IF Rank(p.shape) = 1 THEN "array1d" ELSE "array2d"})
+  \cup (IF Rank(p.shape) = 0 THEN {"scalar"} ELSE {"array", "array" \o ToString(Rank(p.shape)) \o "d"})
   \cup (IF p.ty \in {"int", "float"} THEN {"w" \o ToString(p.width)} ELSE {})
   \cup (IF p.uns THEN {"unsigned"} ELSE {})
   \cup (IF p.uns /\ \E i \in ElemSet(p) : IntPool[i].sbits = p.width THEN {"above_signed_range"} ELSE {})
@@ -553,7 +556,45 @@ HistoryRecord ==
     env    |-> Record.env,
     calls  |-> calls ]
 
+
+---------------------------------------------------------------------------
+(* Chains.  One parsed environment is exported several times, each time    *)
+(* through a new exporter object of some back-end.  In the ideal the       *)
+(* environment is a constant: an export reads it and changes nothing, so   *)
+(* every export of a chain must be read back exactly like a first export,  *)
+(* and the environment itself is afterwards what the DIP text said.        *)
+
+ChainEnv == <<
+  Param(<<"a">>, TV("int", 32, FALSE),   "short", <<>>,     <<2>>,          "",   {},     FALSE),
+  Param(<<"s">>, TV("str", 0, FALSE),    "short", <<3>>,    <<1, 4, 5>>,    "",   {"t1"}, FALSE),
+  Param(<<"c">>, TV("float", 64, FALSE), "short", <<2, 2>>, <<2, 4, 6, 3>>, "cm", {},     FALSE),
+  Param(<<"b">>, TV("bool", 0, FALSE),   "short", <<2>>,    <<1, 2>>,       "",   {},     TRUE),
+  Param(<<"d">>, TV("int", 16, TRUE),    "short", <<>>,     <<4>>,          "",   {},     FALSE) >>
+
+StartChain ==
+  /\ Family = "chain" /\ stage = "env"
+  /\ env' = ChainEnv /\ stage' = "chain"
+  /\ UNCHANGED <<pick, query, tsel, be, opt, calls>>
+
+ChainFeat(cs) == {"chained"} \cup {"after_" \o cs[i].be : i \in 1..Len(cs)}
+
+ExportCall(cs) ==
+  [ op |-> "export", be |-> be, class |-> Class, feat |-> RecFeat, hfeat |-> IF Len(cs) = 0 THEN {} ELSE ChainFeat(cs),
+    query |-> Dotted(query), tags |-> tsel, opt |-> opt, expect |-> Expect, unselected |-> Unselected ]
+
+CExport ==
+  /\ stage = "chain" /\ Len(calls) < MaxChain
+  /\ \E b \in Backends : be' = b
+  /\ UNCHANGED <<stage, env, pick, query, tsel, opt>>
+  /\ \E cs \in {calls} : calls' = Append(cs, ExportCall(cs)')
+
+LemmaChain ==            \* what must be read back does not depend on the position in the chain
+  \A k, l \in 1..Len(calls) : calls[k].be = calls[l].be => calls[k].expect = calls[l].expect
+
+ChainRecord == [ family |-> Family, env |-> Record.env, calls |-> calls ]
+
 Next == AddTypeParam \/ AddSelParam \/ CloseEnv \/ ChooseSel \/ ChooseBackend \/ StartHistory \/ HSelect \/ HParse
+        \/ StartChain \/ CExport
 
 Spec == Init /\ [][Next]_vars
 
@@ -565,4 +606,7 @@ Lemmas ==
   /\ (stage = "hist" /\ Len(calls) > 0 /\ calls[Len(calls)].op = "parse") =>
        /\ LemmaEnv /\ LemmaNames /\ LemmaShapes /\ LemmaSelection /\ LemmaHistory
        /\ (Len(calls) = MaxCalls) => PrintT(ToJson(HistoryRecord))
+  /\ (stage = "chain" /\ Len(calls) > 0) =>
+       /\ LemmaEnv /\ LemmaNames /\ LemmaShapes /\ LemmaSelection /\ LemmaChain
+       /\ (Len(calls) = MaxChain) => PrintT(ToJson(ChainRecord))
 =============================================================================
